@@ -2,7 +2,7 @@
 
 
 def _ob(name, module, factory, kwargs, **extra):
-    d = dict(name=name, spec=(module, factory, kwargs), bounds=dict(kwargs), opts=dict(path_seconds=8))
+    d = dict(name=name, spec=(module, factory, kwargs), bounds=dict(kwargs), opts=dict(path_seconds=5))
     d.update(extra)
     return d
 
@@ -18,6 +18,14 @@ def k_batch(tier):
     return q + [
         _ob("K-batch/count/N3/G2", "harness.k_batch", "k_batch", dict(N=3, G=2, mode="count", states=2)),
     ]
+
+
+def k_queue(tier):
+    q = [_ob("K-queue/N3", "harness.k_queue", "k_queue", dict(N=3)),
+         _ob("K-queue/N4-fan", "harness.k_queue", "k_queue", dict(N=4, shapes=[[1, 0], [2, 0], [3, 0], [3, 1], [3, 2]]))]
+    if tier == "quick":
+        return q
+    return q + [_ob("K-queue/N4", "harness.k_queue", "k_queue", dict(N=4))]
 
 
 H = "harness.h_submit"
@@ -104,17 +112,30 @@ def c17(tier):
     ]
 
 
+HP = "harness.h_pipeline"
+
+
+def c15(tier):
+    q = [_ob("K-stage", HP, "k_stage", dict(max_stages=4)),
+         _ob("H-pipeline/2", HP, "h_pipeline", dict(max_stages=2, fails=False), **_HO)]
+    if tier == "quick":
+        return q
+    return q + [_ob("H-pipeline/2-fails", HP, "h_pipeline", dict(max_stages=2, fails=True), **_HO),
+                _ob("H-pipeline/3", HP, "h_pipeline", dict(max_stages=3, fails=False), **_HO)]
+
+
 def obligations(prop, tier):
     table = {
-        "C01": lambda t: k_batch(t) + h_submit(t),
-        "C02": lambda t: k_batch(t) + h_submit(t),
+        "C01": lambda t: k_batch(t) + k_queue(t) + h_submit(t),
+        "C02": lambda t: k_batch(t) + k_queue(t) + h_submit(t),
         "C03": lambda t: h_submit(t) + k_tally(t),
-        "C04": h_submit,
+        "C04": lambda t: k_queue(t) + h_submit(t),
         "C05": lambda t: k_batch(t) + h_submit(t),
-        "C06": lambda t: k_batch(t) + h_submit(t),
+        "C06": lambda t: k_batch(t) + k_queue(t) + h_submit(t),
         "C07": lambda t: k_batch(t) + h_submit(t) + h_dry(t),
         "C09": h_submit,
         "C12": h_lost,
+        "C15": c15,
         "C17": c17,
         "C18": c18,
         "C20": c20,
